@@ -39,21 +39,31 @@ def rule_a(ctx, out):
     # a failed comparison must stop the replay (raise), not silently continue with something else
     f = ctx.func(f"{GASOL}.optimize_asm_from_log")
     cfg = ctx.cfg(f)
-    for n in cfg.nodes:
-        for c in node_calls(n, C01.COMPARE):
-            a = n.ast
-            flag = C01._bound_from_call(a, c, 0) if isinstance(a, ast.Assign) else None
-            if flag is None:
-                continue
-            # from the compare with flag false: must reach a raise before any further producer/loop step
-            def is_raise(m):
-                return m.kind == "stmt" and isinstance(m.ast, ast.Raise)
-            hits = propagate_unverified(cfg, n, flag, is_raise, lambda m: m.kind == "iter" or m is cfg.exit)
-            if hits:
-                out.bad("optimize_asm_from_log:failed-verification-does-not-stop", "after a failed comparison the replay continues "
-                        "(no raise on that path)", where(f, a))
-            else:
-                out.ok({"function": f.qual, "compare": short(a, 60), "on_failure": "raise"})
+    # the replay entry point and the helpers of the same module it calls (the per-block part may live in a helper)
+    replay_funcs = [g for q, g in sorted(ctx.r.reachable([f], by_name=False).items()) if g.module.name == GASOL
+                    and g.name not in ("optimize_asm_block_from_log", "generate_sfs_dicts_from_log", C01.COMPARE)]
+    n_cmp = 0
+    for g in replay_funcs:
+        gcfg = ctx.cfg(g)
+        for n in gcfg.nodes:
+            for c in node_calls(n, C01.COMPARE):
+                a = n.ast
+                flag = C01._bound_from_call(a, c, 0) if isinstance(a, ast.Assign) else None
+                if flag is None:
+                    continue
+                n_cmp += 1
+                # from the compare with flag false: must reach a raise before any further producer/loop step or a normal return
+
+                def is_raise(m):
+                    return m.kind == "stmt" and isinstance(m.ast, ast.Raise)
+                hits = propagate_unverified(gcfg, n, flag, is_raise, lambda m, gcfg=gcfg: m.kind == "iter" or m is gcfg.exit)
+                if hits:
+                    out.bad(f"{g.name}:failed-verification-does-not-stop" if g is not f else "optimize_asm_from_log:failed-verification-does-not-stop",
+                            "after a failed comparison the replay continues (no raise on that path)", where(g, a))
+                else:
+                    out.ok({"function": g.qual, "compare": short(a, 60), "on_failure": "raise"})
+    if n_cmp < 1:
+        raise AnalysisError("log replay: no verification of a rebuilt block found in optimize_asm_from_log or its helpers")
     # file written only after all loops: no producer call reachable from the write
     writes = [n for n in cfg.nodes if n.kind == "stmt" and isinstance(n.ast, ast.With) and
               any(isinstance(it.context_expr, ast.Call) and call_name(it.context_expr) == "open" and len(it.context_expr.args) > 1
@@ -263,7 +273,7 @@ def rule_d(ctx, out):
 
 RULES = [
     ("C11.d", "per-section block lists of the drivers are fresh", 2, rule_d),
-    ("C11.a", "verification dominates emission in log replay", 5, rule_a),
+    ("C11.a", "verification dominates emission in log replay", 3, rule_a),
     ("C11.b", "log writer/reader agreement", 10, rule_b),
     ("C11.c", "unknown ids (informational)", 1, rule_c),
 ]
